@@ -178,6 +178,12 @@ def rule_b(model, rep, table):
     t = qtext(hf)
     rep.check("id='bcrypt-sha256', version_=2, type=info.prefix, rounds=info.rounds, hash=info.hash, salt=info.salt" in t, R, site(LB, "BcryptSHA256Hasher.hash"), "record fields from the inner bcrypt string",
               "bcrypt-sha256 record: v=2, t=<bcrypt ident>, r=<cost>, salt and digest of the inner bcrypt hash")
+    pb = model.func(H + "bcrypt", "bcrypt_sha256.using")
+    passlib_2b = "subcls.version > 1 and ident != IDENT_2B" in ast.unparse(pb)
+    only2b = [n for n in walk_no_nested(hf) if isinstance(n, ast.If) and "info.prefix" in ast.unparse(n.test) and "2b" in ast.unparse(n.test) and n.body and isinstance(n.body[-1], ast.Raise)]
+    rep.check(passlib_2b and bool(only2b), R, site(LB, "BcryptSHA256Hasher.hash") + " ident", ast.unparse(only2b[0].test) if only2b else "type=info.prefix  # whatever ident the supplied salt carries",
+              "bcrypt-sha256 v2 is defined over $2b$ only (passlib refuses any other `t=`): a supplied salt with another ident is refused",
+              witness="BcryptSHA256Hasher(rounds=4).hash(pw, salt=bcrypt.gensalt(4, prefix=b'2a')) emits '...t=2a...', which passlib.hash.bcrypt_sha256 rejects as malformed")
     vf = model.func(LB, "BcryptSHA256Hasher.verify")
     rep.check("BcryptHashInfo(prefix=info.type, salt=info.salt, hash=info.hash, rounds=info.rounds).as_str().encode()" in qtext(vf), R, site(LB, "BcryptSHA256Hasher.verify"), "inner bcrypt string rebuilt field by field",
               "verify() rebuilds the inner bcrypt string from the same four fields")
@@ -212,6 +218,12 @@ def rule_b(model, rep, table):
             rep.check(not clash and langs[i][1] and langs[j][1] and "" not in langs[i][1] | langs[j][1], RD, f"{langs[i][0]} & {langs[j][0]}", f"required prefixes {sorted(langs[i][1])} and {sorted(langs[j][1])} overlap: {clash[:2]}",
                       "every string of one format starts with a literal prefix no string of the other format can start with",
                       witness=f"a {langs[j][0]} hash is identified (and an update refused) by the {langs[i][0]} hasher")
+    # the record parsers must match the *whole* string: `re.match` with a trailing `$` also accepts "<hash>\n"
+    for un, fnq in (("libpass.inspect.sha_crypt", "inspect_sha_crypt"), ("libpass.inspect.bcrypt", "inspect_bcrypt_hash"), ("libpass.inspect.pbkdf2", "inspect_pbkdf2_hash"), ("libpass.inspect.phc._phc", "inspect_phc")):
+        f2 = model.func(un, fnq)
+        ms = [c.func.attr for c in walk_no_nested(f2) if isinstance(c, ast.Call) and isinstance(c.func, ast.Attribute) and c.func.attr in ("match", "fullmatch", "search")]
+        rep.check(ms == ["fullmatch"], RD, site(un, fnq) + " whole string", f"regex applied with {ms}", "the record regex is applied with fullmatch()",
+                  witness="BcryptHasher.identify(h + '\\n') is True and needs_update is False although verify(h + '\\n', pw) is False and passlib calls the string malformed")
     fn = model.func("libpass.inspect.pbkdf2", "inspect_pbkdf2_hash")
     rep.check(has_if(fn, "digest_name != cls.DIGEST_NAME", ["return None"]), RD, site("libpass.inspect.pbkdf2", "inspect_pbkdf2_hash"), "digest name must be the class's", "pbkdf2 records are told apart by their digest name")
     for cn, want in (("PBKDF2SHA256CryptInfo", "pbkdf2-sha256"), ("PBKDF2SHA512CryptInfo", "pbkdf2-sha512")):
@@ -323,6 +335,17 @@ def rule_d(model, rep, table):
               "bcrypt: the library hashes the UTF-8 password with a salt of the configured cost and ident")
     rep.check(has_if(vf, "not self.identify(hash)", ["return False"]) and returns(vf)[-1:] == ["bcrypt.checkpw(password=as_bytes(secret), hashed_password=as_bytes(hash))"], R, site(LB, "BcryptHasher.verify"), "; ".join(returns(vf)),
               "bcrypt verify(): format check, then the library's constant-time check of password against the whole hash")
+    # a caller-supplied salt is rendered as given: it must fit what the hasher's own record regex (and passlib) accept
+    lu = model.unit("libpass.inspect.sha_crypt")
+    pat, flags = c07._class_regex(model, ("libpass.inspect.sha_crypt", "SHA256CryptInfo"), lu, "REGEX")
+    hi = T.group_repeats(pat, flags).get("salt", (None, None))[1]
+    hf = model.func(LS, "_ShaHasher.hash")
+    bound = [n for n in walk_no_nested(hf) if isinstance(n, ast.If) and "len(salt)" in ast.unparse(n.test) and n.body and isinstance(n.body[-1], ast.Raise)]
+    ok = bool(bound) and any(isinstance(c, ast.Constant) and c.value == hi for c in ast.walk(bound[0].test)) or \
+        (bool(bound) and any(model.fold(model.unit(LS), x) == hi for x in ast.walk(bound[0].test) if isinstance(x, (ast.Name, ast.Attribute))))
+    rep.check(ok, R, site(LS, "_ShaHasher.hash") + " salt length", ast.unparse(bound[0].test) if bound else f"no check of len(salt) against the {hi} characters the record regex accepts",
+              f"a supplied salt longer than {hi} characters is refused (the hasher's own regex, and passlib, accept at most {hi})",
+              witness="SHA256Hasher(rounds=1000).hash('pw', salt='abcdefghijklmnopq') returns a string its own identify()/verify() reject and passlib refuses with 'salt too large'")
     rep.minimum(R, 16)
 
 
